@@ -160,7 +160,7 @@ func C01(tier string) int {
 		Rule: "for every program of the explicit-state exploration (all programs within the bound from each seed state/configuration: puts, deletes, large values, macro fills that grow the file, nested bucket create/delete/move, open readers, reopenings) and for its last commit: the I/O log of the real commit is split into sync epochs; for every epoch every subset of the unsynced operations (exhaustive up to 6 operations, otherwise all subsets dropping or keeping at most 2), every sector prefix/suffix/single sector of each write, every sector subset of the meta write and (for every n-th commit) every contiguous byte range of the meta structure are turned into a crash image; each distinct image is recovered by the real Open under the same and under the opposite freelist configuration and must yield the last acknowledged state, or the in-flight state iff the independent decoder finds its meta complete, pass Tx.Check and page accounting, and accept a follow-up commit. distinct_nontrivial = distinct images recovered",
 		Assumptions: []string{"persistence model: a completed fdatasync/fsync makes everything issued before it durable; afterwards every 512-byte sector of every write and every truncate independently did or did not reach the disk (plus sub-sector tearing of the meta write)",
 			"NoSync mode and the crash while initialising a brand-new file are excluded as the README does"},
-		Quick: 100 * time.Second, Thorough: 10 * time.Minute,
+		Quick: 180 * time.Second, Thorough: 10 * time.Minute,
 		Cov: func(total *hx.Stats, cov map[string]interface{}) {
 			cov["evaluations"] = total.Counters["images"]
 			cov["distinct_nontrivial"] = total.Counters["distinct_images"]
